@@ -354,16 +354,16 @@ def rule_g(ctx):
 
 
 def run(ctx):
-    rule_g(ctx)
+    ctx.guard(rule_g, ctx)
     from .common import rule_abs_tolerance
     _m = ctx.model
     rule_abs_tolerance(ctx, "C05.f", [f for mn in (WAS, "darsia.measure.emd", "darsia.utils.linalg") for k in _m.mod(mn).classes.values() for f in k.methods.values()] + list(_m.mod(WAS).funcs.values()),
                        "the distance must scale linearly with the masses")
-    rule_e(ctx)
-    rule_d(ctx)
-    rule_a(ctx)
-    rule_b(ctx)
-    rule_c(ctx)
+    ctx.guard(rule_e, ctx)
+    ctx.guard(rule_d, ctx)
+    ctx.guard(rule_a, ctx)
+    ctx.guard(rule_b, ctx)
+    ctx.guard(rule_c, ctx)
     # the cost functional integrates the cell flux that face_to_cell reconstructs at the quadrature points (C06.c)
     from . import c06
     from .common import shared
